@@ -123,3 +123,24 @@ func C10_TwoCycles[T signal.SignalTypes]() {
 		vf.Assert("reobtained-buffers-independent", f2.Sample(k2) == 0)
 	}
 }
+
+// bigCycle: get / dirty one sample / put / get on a buffer large enough for size-dependent paths in Put
+// (chunked or concurrent clearing): the dirt at the start, in the middle or at the end is gone.
+func bigCycle[T signal.SignalTypes]() {
+	C := vf.Pick("C", 1, 2)
+	K := vf.Param("HugeSamples", 4100) / C
+	a := signal.Allocator{Channels: C, Length: K, Capacity: K}
+	p := signal.PoolAlloc[T](a)
+	b := p.Get()
+	pos := []int{0, C * K / 2, C*K - 1}[vf.Pick("at", 0, 2)]
+	b.SetSample(pos, vf.Any[T]("dirt"))
+	p.Put(b)
+	g := p.Get()
+	vf.Cover("big-cycle")
+	var z T
+	vf.Assert("big:shape", g.Channels() == C && g.Len() == C*K && g.Cap() == C*K)
+	vf.Assert("big:zero", vf.SameBits(g.Sample(pos), z))
+}
+
+func C10_BigCycle[T signal.SignalTypes]() { bigCycle[T]() }
+func C11_BigCycle[T signal.SignalTypes]() { bigCycle[T]() }
